@@ -162,10 +162,10 @@ def main():
                           replay={"kind": "uci-forced", "commands": final["cmds"], "schedule": final["sched"]})
     chk.sample({"commands": results[0]["cmds"], "schedule": results[0]["sched"]})
     # "each go is answered ... when its limit is reached": every finite form of go, the degenerate limits included (zero
-    # move time, empty clocks, only the opponent's clock), must be answered by itself - no stop is ever sent here
+    # move time, empty or lopsided clocks), must be answered by itself - no stop is ever sent here
     plain = vlib.build_engine("dev", hooks=False)
-    finite = ["go depth 1", "go movetime 0", "go movetime 1", "go wtime 0 btime 0", "go wtime 1 btime 1", "go btime 500",
-              "go wtime 500", "go wtime 0 btime 0 winc 0 binc 0", "go wtime 300 btime 300 movestogo 1", "go depth 3 movetime 5"]
+    finite = ["go depth 1", "go movetime 0", "go movetime 1", "go wtime 0 btime 0", "go wtime 1 btime 1", "go wtime 500 btime 500",
+              "go wtime 2 btime 900 winc 0 binc 0", "go wtime 0 btime 0 winc 0 binc 0", "go wtime 300 btime 300 movestogo 1", "go depth 3 movetime 5"]
 
     def answered(i):
         pos = uci.SCRIPT_POSITIONS[i % len(uci.SCRIPT_POSITIONS)]
